@@ -52,6 +52,17 @@ func verifStr(name string) string {
 	}
 	return fmt.Sprintf("s%x", id)
 }
+// verifStrBuild: symbolically an opaque string like verifStr; natively the string is built by the
+// harness from other model values, so that library functions (regexp, prefix tests) see real text.
+func verifStrBuild(name string, build func() string) string {
+	if id := verifModel[name] & 0xffffffff; id != 0 {
+		if s, ok := verifStrConst[id]; ok {
+			return s // a concrete string supplied by the replay file (pattern P7)
+		}
+	}
+	return build()
+}
+
 func verifTime(name string) time.Time { return time.Unix(0, int64(verifModel[verifKey(name)])) }
 
 type verifAssumeFailed struct{}
@@ -173,6 +184,9 @@ func verifLoad(path string) (*verifReplayFile, error) {
 		case strings.HasPrefix(v, "#b"):
 			u, _ := strconv.ParseUint(v[2:], 2, 64)
 			verifModel[k] = u
+		case strings.HasPrefix(v, "float:"):
+			f, _ := strconv.ParseFloat(v[6:], 64)
+			verifFModel[k] = f
 		case strings.HasPrefix(v, "(fp "):
 			f := strings.Fields(strings.Trim(v, "()"))
 			if len(f) == 4 {
